@@ -238,6 +238,9 @@ func Execute(texts []string, names []string, useFiles bool) (outcome string, err
 				e.IsCase()
 				e.IsLeafList()
 				if e.Node != nil {
+					yang.FindGrouping(e.Node, "nosuchgrouping", nil)
+					yang.FindGrouping(e.Node, e.Name, nil)
+					yang.FindModuleByPrefix(e.Node, m.GetPrefix())
 					yang.NodePath(e.Node)
 					yang.FindNode(e.Node, "../"+e.Name)
 					yang.FindNode(e.Node, e.Name)
@@ -256,6 +259,15 @@ func Execute(texts []string, names []string, useFiles bool) (outcome string, err
 				// node-level API and to ToEntry.
 				for _, x := range e.Exts {
 					if x != nil {
+						ee := yang.ToEntry(x)
+						ee.Find("/" + m.GetPrefix() + ":" + e.Name)
+						ee.Find("../x")
+						ee.Namespace()
+						ee.InstantiatingModule()
+						ee.Path()
+						yang.FindModuleByPrefix(x, m.GetPrefix())
+						yang.FindModuleByPrefix(x, "")
+						yang.FindGrouping(x, "g", nil)
 						yang.ToEntry(x).GetErrors()
 						yang.NodePath(x)
 						yang.FindNode(x, "../"+e.Name)
